@@ -3,7 +3,7 @@
 Correspondence of Model/C02.v (token manager + client pipe/request machine + client side of the message manager)
 with the real Context / TokenManager / MessageManager / Pipe / Request objects driven in virtual time over a fake
 message interface, using the REAL udp6 endpoint address class (its equality is one of the anchors)."""
-import os, sys, json, socket, logging, types, warnings
+import os, sys, json, socket, logging, types, warnings, errno
 import fw
 from fw import gz, gbool, glist, gopt, gbytes
 
@@ -38,6 +38,12 @@ class Driver:
         self.pk_mc = _in6_pktinfo.pack(socket.inet_pton(socket.AF_INET6, "ff02::fd"), 0)
         drv = self
         class MI(simnet.FakeMI):
+            def send(self, m):
+                # a transport that refuses the datagram synchronously (udp6: sendmsg raises OSError -> error_received ->
+                # MessageManager.dispatch_error(exc, remote), all from inside send(); nothing goes onto the wire)
+                if drv.rid_of(m.remote) in drv.refusing:
+                    drv.mman.dispatch_error(OSError(errno.ENETUNREACH, "Network is unreachable"), m.remote); return
+                simnet.FakeMI.send(self, m)
             async def recognize_remote(self, r): return isinstance(r, UDP6EndpointAddress)
             async def determine_remote(self, m): return None
         with self.loop.enter():
@@ -50,7 +56,7 @@ class Driver:
         def recording_next_token():
             t = orig_next_token(); self.last_token = t; return t
         self.tman.next_token = recording_next_token      # observe token assignment from outside
-        self.reqs = {}; self.out = []; self.nexc = 0
+        self.reqs = {}; self.out = []; self.nexc = 0; self.refusing = set()
     # -- helpers
     def addr(self, r, incoming=False, mcl=False):
         return self.A((_host(r), 5683, 0, 0), self.iface, pktinfo=(self.pk_mc if mcl else self.pk_uni) if incoming else None)
@@ -156,6 +162,7 @@ class Driver:
             elif k == "cancel": self.ev_cancel(ev[1])
             elif k == "obscancel": self.ev_obscancel(ev[1])
             elif k == "shutdown": self.ev_shutdown()
+            elif k == "refuse": (self.refusing.add if ev[2] else self.refusing.discard)(ev[1])
             else: raise ValueError("unknown event %r" % (ev,))
             trace.append(self.flush())
         og = self.tman.outgoing_requests
@@ -178,7 +185,7 @@ class Gen:
     so that forged responses are aimed precisely (right token & wrong remote, retired token, ...)."""
     def __init__(self, rng, token0, mid0):
         self.rng = rng; self.tok = token0; self.mid = mid0; self.reqs = []; self.events = []; self.rid = 0
-        self.delayed = []; self.history = []; self.shut = False; self.obsv = {}
+        self.delayed = []; self.history = []; self.shut = False; self.obsv = {}; self.allow_refuse = True
     def remotes(self): return [0, 1, 2]
     def new_rid(self): self.rid += 1; return self.rid
     def ev(self, e): self.events.append(e)
@@ -249,6 +256,7 @@ class Gen:
         sent = [x for x in self.reqs if x["mid"] is not None]
         if info is None and sent and rng.random() < 0.8: info = rng.choice(sent)
         mtype = rng.choice([ACK, ACK, ACK, RST, RST, CON])
+        if info is not None and info["mid"] is None: info = None
         if info is not None:
             r = info["r"] if rng.random() < 0.85 else self.other_remote(info["r"])
             mid = info["mid"] if rng.random() < 0.85 else (info["mid"] + rng.choice([1, -1, 256])) & 0xFFFF
@@ -269,7 +277,8 @@ class Gen:
         elif x < 0.80: self.release_delayed()
         elif x < 0.88: self.ev(["fire"])
         elif x < 0.91: self.ev(["adv", rng.choice([1, 1000, 999999, 2000000, 2500000, 5000000, 70000000])])
-        elif x < 0.945: self.ev(["err", rng.choice([0, 0, 1, 2, 3]), rng.choice(ERRKINDS)])
+        elif x < 0.935: self.ev(["err", rng.choice([0, 0, 1, 2, 3]), rng.choice(ERRKINDS)])
+        elif x < 0.945 and self.allow_refuse: self.ev(["refuse", rng.choice([0, 0, 1, 2]), rng.random() < 0.6])
         elif x < 0.97 and self.reqs: self.ev(["cancel", rng.randrange(len(self.reqs))])
         elif x < 0.99 and self.reqs:
             obs = [i["q"] for i in self.reqs if i["obs"]]
@@ -299,6 +308,24 @@ def gen_script(rng, kind):
         for i in range(n):
             if i == pos: g.ev(["shutdown"]); g.shut = True
             g.random_event(maxreq=6)
+    elif kind == "refuse":      # the transport refuses datagrams to one remote synchronously (sendmsg fails inside send()),
+        # with other requests to that remote outstanding (NON, acknowledged CON, observation, un-acked CON + backlog)
+        r = rng.choice([0, 0, 1])
+        for _ in range(rng.randint(0, 4)):
+            g.req(r=r if rng.random() < 0.8 else rng.choice([0, 1, 2, MC_BASE]))
+            if rng.random() < 0.5: g.random_event(maxreq=0)
+        if rng.random() < 0.5 and g.reqs: g.empty(rng.choice(g.reqs))
+        g.ev(["refuse", r, True])
+        for _ in range(rng.randint(1, 6)):
+            x = rng.random()
+            if x < 0.45 and len(g.reqs) < 7: g.req(r=r if rng.random() < 0.8 else rng.choice([0, 1, 2]))
+            elif x < 0.6: g.ev(["fire"])
+            elif x < 0.7 and g.reqs: g.empty(rng.choice(g.reqs))
+            else: g.random_event(maxreq=0)
+        if rng.random() < 0.7: g.ev(["refuse", r, False])
+        for _ in range(rng.randint(0, 8)): g.random_event(maxreq=7)
+        if rng.random() < 0.3:
+            for _ in range(12): g.ev(["fire"])
     elif kind == "forge":       # one victim request, then every forgery against it, then the genuine answer
         victim = g.req(r=rng.choice([0, 1, MC_BASE]), mtype=rng.choice([CON, NON, None]) , obs=rng.random() < 0.3)
         for _ in range(rng.randint(0, 2)): g.req()
@@ -308,7 +335,7 @@ def gen_script(rng, kind):
         while g.delayed: g.release_delayed()
     return {"token0": token0, "mid0": mid0, "t0": t0, "events": g.events}
 
-KINDS = ["random"] * 5 + ["nomc"] * 3 + ["timeout", "shutdown", "forge", "forge"]
+KINDS = ["random"] * 5 + ["nomc"] * 3 + ["timeout", "shutdown", "forge", "forge", "refuse", "refuse", "refuse"]
 
 # ------------------------------------------------------------------------------------------------ the plugin
 EXN_NAMES = {"OtherError": "InvalidStateError"}
@@ -380,6 +407,7 @@ class C02(fw.Property):
             elif k == "cancel": evs.append("Cancel %s" % gz(e[1]))
             elif k == "obscancel": evs.append("ObsCancel %s" % gz(e[1]))
             elif k == "shutdown": evs.append("Shutdown")
+            elif k == "refuse": evs.append("Refuse %s %s" % (gz(e[1]), gbool(e[2])))
             else: raise ValueError(k)
         return "let r := run (init %s %s %s) %s in (snd r, snapshot (fst r))" % (gz(inp["token0"]), gz(inp["mid0"]), gz(inp["t0"]), glist(evs))
     def decode(self, stream, inp, p):
@@ -416,6 +444,7 @@ class C02(fw.Property):
         def is_net(name): return is_lib(name) and issubclass(getattr(E, name), E.NetworkError)
         R = {}                      # q -> bookkeeping
         shut = False
+        refusing = set(); refusal_used = False      # remotes for which the transport currently refuses datagrams synchronously
         def outstanding(): return [x for x in R.values() if x["live"]]
         def matches(x, tok, r): return x["live"] and x["tok"] == tok and (x["mc"] or x["r"] == r)
         for ev, outs in zip(inp["events"], res["trace"]):
@@ -453,9 +482,10 @@ class C02(fw.Property):
                         if x["tok"] == tok and (x["r"] == r or x["mc"] or r >= MC_BASE):
                             return ("C02:token-reused", "request %d got token %r which request %d (outstanding, same endpoint) is using" % (q, tok, x["q"]))
                 R[q] = {"q": q, "r": r, "mc": r >= MC_BASE, "obs": ev[4], "tok": tok, "live": tok is not None and failed is None, "done": failed,
+                        "refused_at_request": r in refusing, "on_wire": False,
                         "obs_cancelled": False, "con": None, "mid": None, "acked": False, "gaveup": False}
                 mine = [s for s in sends if s[5] == tok and s[3] == 1]
-                if mine: R[q]["con"] = mine[0][2] == CON; R[q]["mid"] = mine[0][4]
+                if mine: R[q]["con"] = mine[0][2] == CON; R[q]["mid"] = mine[0][4]; R[q]["on_wire"] = True
                 elif failed is None: R[q]["con"] = True          # not on the wire yet: queued behind another CON
                 if shut and failed is None: return ("C02:request-after-shutdown-pending", "request %d issued after shutdown did not fail" % q)
                 if shut and failed[2] != "LibraryShutdown": return ("C02:request-after-shutdown-pending", "request %d after shutdown: %r" % (q, failed))
@@ -463,7 +493,7 @@ class C02(fw.Property):
                 r, mcl, mtype, code, mid, tok = ev[1:7]
                 for s in sends:       # learn mids of requests released from the backlog
                     for x in R.values():
-                        if s[3] == 1 and x["tok"] == s[5] and x["mid"] is None: x["mid"] = s[4]; x["con"] = s[2] == CON
+                        if s[3] == 1 and x["tok"] == s[5] and x["mid"] is None: x["mid"] = s[4]; x["con"] = s[2] == CON; x["on_wire"] = True
                 if mtype in (ACK, RST):
                     for x in R.values():
                         if x["r"] == r and x["mid"] == mid:
@@ -471,6 +501,9 @@ class C02(fw.Property):
                             if mtype == RST and x["live"] and x["con"] and not x["acked"] and not x["gaveup"]: x["rst_seen"] = True
                             x["acked"] = True
                 is_resp = 64 <= code < 192
+                if r in refusing:      # the library's ACK / RST to r is refused by the transport like everything else: nothing can be on the wire
+                    if [s for s in sends if s[1] == r]: return ("C02:datagram-to-refusing-remote", "%r" % (sends,))
+                    mcl = True         # ... so neither ACK nor RST is expected below (same expectation as for multicast reception)
                 cands = [x for x in R.values() if matches(x, tok, r)] if is_resp else []
                 acks = [s for s in sends if s[1] == r and s[2] == ACK and s[3] == 0 and s[4] == mid]
                 rsts = [s for s in sends if s[1] == r and s[2] == RST and s[3] == 0 and s[4] == mid]
@@ -485,12 +518,13 @@ class C02(fw.Property):
                     else:
                         x = cands[0]
                         if x["obs_cancelled"]:
-                            if mtype == CON and len(acks) + len(rsts) != 1: return ("C02:matched-con-not-acked", "%r answered with %r" % (ev, sends))
+                            if mtype == CON and len(acks) + len(rsts) != (0 if r in refusing else 1): return ("C02:matched-con-not-acked", "%r answered with %r" % (ev, sends))
                             x["live"] = False
                         else:
-                            if mtype == CON and (len(acks) != 1 or rsts): return ("C02:matched-con-not-acked", "matched CON response %r answered with %r" % (ev, sends))
+                            if mtype == CON and (len(acks) != (0 if r in refusing else 1) or rsts): return ("C02:matched-con-not-acked", "matched CON response %r answered with %r" % (ev, sends))
                             if mtype != CON and (acks or rsts): return ("C02:spurious-reply", "%r answered with %r" % (ev, sends))
-                            if x["done"] is None and not any(o[0] == "result" and o[1] == x["q"] for o in deliveries):
+                            failed_now = any(o[0] == "exception" and o[1] == x["q"] for o in completions)   # e.g. the message layer's own send was refused first
+                            if x["done"] is None and not failed_now and not any(o[0] == "result" and o[1] == x["q"] for o in deliveries):
                                 return ("C02:matching-response-not-delivered", "response %r matches outstanding request %d but was not delivered" % (ev, x["q"]))
                             final = not (x["obs"] and ev[7] is not None)
                             if final: x["live"] = False
@@ -521,6 +555,9 @@ class C02(fw.Property):
             elif k == "obscancel":
                 x = R.get(ev[1])
                 if x is not None and x["obs"] and x["live"] and x["done"] is not None and x["done"][0] == "result": x["obs_cancelled"] = True
+            elif k == "refuse":
+                if ev[2]: refusing.add(ev[1]); refusal_used = True
+                else: refusing.discard(ev[1])
             elif k == "shutdown" and not shut:
                 for x in outstanding():
                     c = next((o for o in completions if o[1] == x["q"]), None)
@@ -537,11 +574,23 @@ class C02(fw.Property):
             for o in outs:
                 if o[0] == "obserr" and o[1] in R: R[o[1]]["live"] = False
                 if o[0] == "exception" and o[1] in R and k in ("fire",): pass
-            if escaped:
+            # KeyError / AssertionError out of MessageManager._continue_backlog / _retransmit after a synchronous refusal are
+            # message-layer bookkeeping faults (notes/C02.md, side observations); every request is failed by the error fan-out
+            # first, so they are not C02 violations. Anything else that escapes is reported.
+            if escaped and not (refusal_used and all(e in ("KeyError", "AssertionError") for e in escaped)):
                 return ("C02:exception-escaped:%s:%s%s" % (escaped[0], k, mcpend), "%s escaped from the library while processing %r" % (escaped[0], ev))
             if any(o[0] == "crash" for o in outs): return ("C02:model-crash", "%r" % (outs,))
-        # -- an un-acknowledged CON request cannot stay pending once every timer has run out
         fin = res["final"]
+        # -- a request that never went onto the wire, for whose remote nothing is scheduled any more (no exchange, no backlog),
+        #    can never complete: it must not be pending. (The transport refused its first transmission from inside send():
+        #    the error fan-out has to find the request, i.e. it must be registered before it is sent.)
+        if fin["exchanges"] is not None and not shut:
+            for x in R.values():
+                if x["tok"] is not None and x["done"] is None and not x["mc"] and not x["on_wire"] \
+                        and not any(e[0] == x["r"] for e in fin["exchanges"]) and not any(b[0] == x["r"] for b in fin["backlogs"]):
+                    return ("C02:request-to-refusing-remote-never-completed" if x["refused_at_request"] else "C02:request-never-sent-nor-completed",
+                            "request %d to remote %d never went onto the wire, no exchange or backlog is left for that remote, and it is still pending" % (x["q"], x["r"]))
+        # -- an un-acknowledged CON request cannot stay pending once every timer has run out
         if fin["exchanges"] == [] and not shut:
             for x in R.values():
                 if x["con"] and not x["mc"] and x["tok"] is not None and x["done"] is None and not x["acked"]:
